@@ -381,6 +381,25 @@ func main() {
 			}
 		}
 	}
+	// the zero value as a STORED value: after Store(0) the register is no longer empty (CAS(0->1) must
+	// succeed exactly when the current value is 0), Swap(0) hands back what it replaced
+	{
+		alpha0 := []call{{"Load", 0, 0}, {"Store", 0, 0}, {"Swap", 0, 0}, {"CAS", 0, 1}, {"Store", 1, 0}, {"CAS", 1, 0}}
+		var progs0 [][]call
+		for _, a := range alpha0 {
+			progs0 = append(progs0, []call{a})
+			for _, b := range alpha0 {
+				progs0 = append(progs0, []call{a, b})
+			}
+		}
+		for _, init := range []int{-1, 0, 1} {
+			for i, a := range progs0 {
+				for _, b := range progs0[i:] {
+					scs = append(scs, atomScenario(init, [][]call{a, b}, -1))
+				}
+			}
+		}
+	}
 	// other element types: every single-thread program of 2 calls and every pair of single calls
 	for ty := 1; ty < len(regTypes); ty++ {
 		for _, init := range []int{-1, 1} {
